@@ -2,7 +2,7 @@ import copy
 from typing import Dict, Optional
 from valida.conditions import ConditionLike
 from valida.casting import CAST_DTYPE_LOOKUP, CAST_LOOKUP
-from valida.data import Data, set_datum
+from valida.data import Data, set_datum_at
 from valida.datapath import DataPath
 from valida.errors import MalformedRuleSpec
 
@@ -118,11 +118,12 @@ class Rule:
                         if isinstance(datum, k):
                             try:
                                 datum = v(datum)
-                                break
                             except (TypeError, ValueError):
-                                pass
-                    datum_path = DataPath(*datum_path)
-                    set_datum(data_copy, datum_path, datum)
+                                continue
+                            # write only successfully cast values into the copy, along
+                            # the concrete keys/indices at which the datum was found:
+                            set_datum_at(data_copy, datum_path, datum)
+                            break
 
         return RuleTest(self, data_copy)
 
